@@ -3,9 +3,9 @@
 OUT=/var/tmp/suiteseeds; mkdir -p $OUT
 D=/var/tmp/suiterepo
 for P in "$@"; do
- for PD in /tmp/mut/M-$P-out/patch*.diff; do
+ for PD in /tmp/mut/${MUTPREFIX:-M}-$P-out/patch*.diff; do
   [ -f "$PD" ] || continue
-  ID=$P-$(basename $PD .diff)
+  ID=${MUTPREFIX:-M}-$P-$(basename $PD .diff)
   [ -s $OUT/$ID.json ] && continue
   /verif/tools/suite_copy.sh $D > $OUT/$ID.copy.log 2>&1
   ( cd $D && patch -p1 --no-backup-if-mismatch < $PD > $OUT/$ID.patch.log 2>&1 ) || { echo "$ID: PATCH FAILED"; continue; }
